@@ -4,6 +4,12 @@ import json, os
 HERE = os.path.dirname(os.path.abspath(__file__))
 ALL = ['C%02d' % i for i in range(1, 21)]
 TECH = {
+ 'C04': 'generic runtime contract (OLD snapshot -> well-formedness, token sequence, constituent accounting) on all twelve structural transformations, driven by sequences from a prerequisite automaton',
+ 'C10': 'runtime contracts on topdown/inorder/gap + independent replay automata (sentence + transition names only); logical step budget via sys.monitoring; writer and real CLI subprocesses',
+ 'C11': 'runtime contracts with OLD snapshots on the token-editing transformations and trees.delete_terminal vs reference semantics over the token list; generated terminal files',
+ 'C13': 'runtime contracts with OLD parent maps on the three punctuation re-attachments: state predicates on the result + frame condition; placement sweep + random workload',
+ 'C14': 'runtime contracts with OLD snapshots on binarize/collapse/uncollapse: arity bound, @-label rule, splice-out inverse, rejection of unmarked trees, collapse reference and uncollapse inverse',
+ 'C15': 'runtime contracts on negra_mark_heads/mark_heads_by_rules: exactly-one-head invariant, HD/NK/leftmost rule from the snapshot edges, single-listed-child rule over both presets, rejection of invalid configurations',
  'C05': 'runtime contracts with OLD snapshots on the real boyd_split/raising + set-based recursive reference model; shape x head-assignment sweep + random workload',
  'C06': 'runtime contract on the real grammar.extract (count delta vs set-based per-node rule, linearization re-applied to the child blocks); random treebank workload',
  'C07': 'runtime contracts on binarize_rule/binarize/reordering_optimal with a spy on the label generators; symbolic yield evaluation of rule chains; exhaustive canonical-rule sweep + extracted grammars, all binarization modes',
@@ -14,6 +20,12 @@ TECH = {
  'C20': 'runtime contracts on parse_label/format_label/get_label; inversion + per-component removal oracles; exhaustive string sweep + structured random labels',
 }
 TEXT = {
+ 'C04': 'every call of a structural transformation made while driving 8 000 (quick) / 300 000 (thorough) prerequisite-respecting sequences of up to 5/7 steps, plus every transformation alone on all shapes up to 4/5 tokens, is checked: returned node is a parentless root of a well-formed tree, words/POS unchanged (modulo + concatenation), label multiset as documented per transformation. Held on the executions observed.',
+ 'C10': 'each emitted sequence is executed by an automaton that knows only the sentence and the transition names and must consume all tokens, end in one item and rebuild the input tree incl. unary nodes, root, labels and head sides; all binary shapes up to 4/5 tokens x head assignments, random trees to 30 tokens, pipeline-produced trees, the plain writer and `treetools transitions` runs. Held on the executions observed.',
+ 'C11': 'result of every call compared with reference semantics (deleted set, pruning, renumbering, insertion positions, substitution, filter decision, returned root, printed report) on trees with punctuation/traces in hostile positions and terminal files with valid/0/negative/len+1/len+2/duplicate/foreign entries. Held on the executions observed.',
+ 'C13': 'state predicates of the three docstrings on the result plus the frame condition (only (paired) punctuation tokens change parent; tree stays well formed) for all shapes up to 4/5 tokens x all punctuation placements and random trees with punctuation density 0-100 %, +-root_attach, +-relc. Held on the executions observed.',
+ 'C14': 'binarize: arity <= 2, added nodes labelled @+parent label without co-index (or bare), splice-out restores the input, unmarked wide trees rejected; collapse equals the reference, leaves no unary node; uncollapse(collapse(t)) returns a parentless root equal to t; arity 1..8 x head position sweep + random. Held on the executions observed.',
+ 'C15': 'after either marker exactly one head child per constituent, root unmarked; NeGra heuristic recomputed from snapshot edges; for both presets every parent category with child sequences in which exactly one child is listed (random case, -GF/-n/=n decorations); invalid configurations must raise ValueError. Held on the executions observed.',
  'C05': 'every boyd_split and raising execution of the workload is compared node for node with a set-based reference (one node per block with block numbers and a unique head block; head-run kept, rest floated) and the result is checked continuous with tokens and label multiset unchanged. All shapes up to 5/6 tokens x head assignments plus random trees to 40 tokens, gap degree to n/2, three head sources, +-root_attach. Held on the executions observed.',
  'C06': 'the grammar/lexicon delta of every extract call equals one (rule, linearization, vertical context) occurrence per constituent and one lexicon occurrence per token as computed from a set-based model, the stored linearization is re-applied to the child blocks, and treebank-level totals (counts per LHS, fan-outs, context-freeness) are compared with the spec. Random treebanks with repeated rules. Held on the executions observed.',
  'C07': 'for every rule handed to binarize_rule the recorded labels must name a chain in the returned grammar whose stored linearizations compose (symbolic evaluation) to the original yield with consistent fan-outs; deterministic mode is un-binarized and compared with the input; reorderings must be pure renamings. Complete canonical-rule sweep (rank<=4, <=6/7 variables) + extracted grammars, deterministic and 32 Markov modes x 2 reorderings. Held on the executions observed.',
